@@ -140,7 +140,7 @@ static void membership(bool thorough)
         }
     }
     // smooth families: non-zero widths; equal slopes and ordered centres for the difference of sigmoids
-    static const double W[3] = {0.5, 1, 2}, SL[4] = {1, 4, -1, -4}, BP[3] = {1, 2, 3};
+    static const double W[3] = {0.5, 1, 2}, SL[4] = {1, 4, -1, -4}, BP[7] = {1, 2, 3, 0.5, 0.75, 1.25, 2.5}; // bell exponents need not be integers
     for (double s1 : W)
     {
         for (int c1 = 0; c1 < 7; ++c1)
@@ -286,6 +286,26 @@ static void inference(bool thorough)
                     for (size_t q = 0; q < 64; ++q) { if (raw[q] != 0xCB || raw[64 + A_PID_FUZZY_BFUZZ(B.active) + q] != 0xCB) { ok = false; } }
                     if (!ok) { R.viol(sig + "buffer-overrun", "the scratch buffer of A_PID_FUZZY_BFUZZ(" + std::to_string(B.active) + ") bytes was overrun with at most " + std::to_string(B.active) + " sets active", in); memset(raw.data(), 0xCB, raw.size()); continue; }
                     double got[3] = {(double)c.pid.kp - 10, (double)c.pid.ki - 1, (double)c.pid.kd - 0.25};
+                    // the scheduled gains are a function of THIS step's (e, ec) and the tables only: a controller that has been through
+                    // all the previous lattice points must schedule exactly what a freshly initialised one does (no stale gains)
+                    {
+                        std::vector<unsigned char> raw2(A_PID_FUZZY_BFUZZ(B.active) + 16, 0);
+                        a_pid_fuzzy f;
+                        memset(&f, 0, sizeof f);
+                        f.pid.summin = -10; f.pid.summax = 10; f.pid.outmin = -10; f.pid.outmax = 10;
+                        a_pid_fuzzy_init(&f);
+                        a_pid_fuzzy_set_opr(&f, OPRS[o]);
+                        a_pid_fuzzy_set_rule(&f, B.n, B.me, B.mec, B.kp, B.ki, B.kd);
+                        a_pid_fuzzy_set_kpid(&f, 10, 1, (a_real)0.25);
+                        a_pid_fuzzy_set_bfuzz(&f, raw2.data(), B.active);
+                        f.pid.err = (a_real)(e - ec);
+                        a_pid_fuzzy_run(&f, (a_real)e, 0);
+                        if (std::isfinite((double)f.pid.kp) && std::isfinite((double)c.pid.kp) && (f.pid.kp != c.pid.kp || f.pid.ki != c.pid.ki || f.pid.kd != c.pid.kd))
+                        {
+                            R.viol(sig + "history-dependent", "the gains scheduled for this (e, ec) depend on earlier steps: a used controller gives (" + num((double)c.pid.kp) + ", " + num((double)c.pid.ki) + ", " + num((double)c.pid.kd) + "), a fresh one (" + num((double)f.pid.kp) + ", " + num((double)f.pid.ki) + ", " + num((double)f.pid.kd) + ") (" + std::to_string(g.ne) + "x" + std::to_string(g.nec) + " sets active, total firing strength " + num((double)g.strength) + ")", in);
+                            continue;
+                        }
+                    }
                     L want[3] = {g.kp, g.ki, g.kd};
                     const a_real *T[3] = {B.kp, B.ki, B.kd};
                     static const char *gn[3] = {"kp", "ki", "kd"};
